@@ -5,7 +5,12 @@ package main
 const (
 	pkgCore       = modulePath + "/lambda/core"
 	pkgFatalerror = modulePath + "/lambda/fatalerror"
+	pkgDirect     = modulePath + "/lambda/core/directinvoke"
+	pkgBW         = modulePath + "/lambda/core/bandwidthlimiter"
 )
+
+func frozen(h *harnessSpec) *harnessSpec { h.frozenClock = true; return h }
+func ticks(h *harnessSpec, n int) *harnessSpec { h.maxTicks = n; return h }
 
 func hs(pkg, name string, pb int, desc string, reach ...string) *harnessSpec {
 	return &harnessSpec{name: name, pkg: pkg, preemptionBound: pb, maxTicks: 3, desc: desc, needReach: reach}
@@ -35,6 +40,27 @@ var checkRegistry = []*checkSpec{
 		assume:  []string{"header values are printable ASCII (net/http rejects the rest)", "regexp.MatchString contract: constant pattern translated to an SMT-LIB RegLan"},
 		outside: []string{"HTTP transport"},
 	},
+}
+
+func init() {
+	c17 := []*harnessSpec{
+		frozen(hs(pkgDirect, "VerifC17Stateless", 0, "ReceiveDirectInvoke from havocked package variables (any request history) vs a fresh process: same outcome (relational)", "accepted", "refused", "streaming")),
+		hs(pkgDirect, "VerifC17Validation", 0, "ReceiveDirectInvoke: token validation, header defaults and ranges, symbolic headers and token", "ok", "ok-streaming", "refused"),
+		hs(pkgDirect, "VerifC17Classify", 0, "sendPayloadLimitedResponse: payload of symbolic length/content, symbolic limit, symbolic copy error: forwarded bytes and Complete/Oversized/Truncated", "complete", "oversized", "truncated"),
+		hs(pkgDirect, "VerifC17BucketParams", 0, "NewStreamedResponseWriter arithmetic for every rate/burst in the validated ranges", "writer"),
+		hs(pkgBW, "VerifC17BucketStep", 0, "one step of Bucket.produceTokens/consumeTokens from an arbitrary valid state preserves sent+tokens <= burst+refills (inductive lemma)", "produce", "consume-ok", "consume-refused"),
+		hs(pkgBW, "VerifC17Chunks", 0, "ChunkIterator partitions a buffer of symbolic length (<= 3 chunks) in order", "three-chunks"),
+		ticks(hs(pkgBW, "VerifC17Writer", 1, "BandwidthLimitingWriter.Write with its real ticker goroutine: order, chunk size, termination, volume bound; all interleavings <= 1 preemption, ticker unwound 4 times", "two-chunks", "waited-for-refill"), 4),
+	}
+	c17t := append([]*harnessSpec{}, c17[:len(c17)-1]...)
+	wt := ticks(hs(pkgBW, "VerifC17Writer", 2, "as quick, <= 2 preemptions, ticker unwound 4 times", "two-chunks", "waited-for-refill"), 4)
+	wt.maxPaths = 3000000
+	c17t = append(c17t, wt)
+	checkRegistry = append(checkRegistry, &checkSpec{
+		id: "C17", level: "other", quick: c17, thorough: c17t,
+		assume: []string{"strconv.ParseInt on a symbolic header is an uninterpreted function of the string (same string, same result; empty string does not parse; result within int64)", "Customer-Headers header absent (base64+JSON decoding not encoded)", "clock frozen in the relational harness", "time.Ticker contract: a tick may fire at any scheduling point; ticker unwound to 5 ticks"},
+		outside: []string{"real ticker jitter, TCP back-pressure, http.Flusher", "streaming select/reset path of sendStreamingInvokeResponse (not yet encoded)", "payloads longer than 2^30 bytes"},
+	})
 }
 
 func findCheck(id string) *checkSpec {
